@@ -146,7 +146,9 @@ class Run:
             out.append(f"  {f.where} [{f.rule}] {f.full_key}: {f.message}")
         for e in self.errors:
             out.append(f"ANALYSIS-ERROR property={self.prop} {e}")
-        status = 2 if self.errors else (1 if violations else 0)
+        # a concrete, located violation outranks a missed floor (the floor often
+        # fails *because* the violating edit removed the counted construct)
+        status = 1 if violations else (2 if self.errors else 0)
         wall = time.time() - self.t0
         if self.write:
             self._write_evidence(status, len(violations), knowns, wall)
